@@ -112,6 +112,22 @@ def run(ctx):
     r = rep.rule("R-FORWARD-ROLE",
                  "each C parameter reaches the C++ call argument of the same role (frozen role table); a defaulted "
                  "C++ parameter must not stay defaulted when the C function has a parameter for it", floor=len(ROLE_TABLE))
+    INT_WIDTH = {"bool": 1, "char": 1, "signed char": 1, "unsigned char": 1, "short": 2, "unsigned short": 2, "int": 4, "unsigned int": 4, "long": 8,
+                 "unsigned long": 8, "long long": 8, "unsigned long long": 8}
+
+    def via_helper(f, did, callee):
+        """the C function hands the parameter to a helper of this unit which makes the C++ call: (helper, its parameter's did, call node) per such call"""
+        t0 = taint_closure(f, {did})
+        out = []
+        for c in f.calls():
+            h = prog.functions.get(c.get("fk")) if c.get("k") == "call" and c.get("fk") else None
+            if h is None or h is f or h.is_lambda or relpath(h.file) != relpath(f.file) or not h.calls(callee):
+                continue
+            for i, a in enumerate(arg_nodes(c)):
+                if a is not None and mentions(a, t0) and i < len(h.params):
+                    out.append((h, h.params[i], c))
+        return out
+
     for cname, pname, callee, idx in ROLE_TABLE:
         site = "%s|%s->%s#%d" % (cname, pname, callee, idx)
         f = prog.fn(cname)
@@ -120,8 +136,21 @@ def run(ctx):
             raise AnalysisBroken("role table: %s has no parameter %s" % (cname, pname))
         calls = f.calls(callee)
         if not calls:
-            r.violation(site, "%s no longer calls %s" % (cname, callee), f)
-            continue
+            hops = via_helper(f, did, callee)
+            if not hops:
+                r.violation(site, "%s no longer calls %s" % (cname, callee), f)
+                continue
+            # follow the parameter into the helper: same check there, and nothing narrowed on the way
+            p0 = [p_ for p_ in f.params if p_["did"] == did][0]
+            w0 = INT_WIDTH.get(f.db_types[p0["ct"]])
+            narrowed = [(h, hp) for h, hp, _c in hops if w0 is not None and INT_WIDTH.get(h.db_types[hp["ct"]]) is not None and INT_WIDTH[h.db_types[hp["ct"]]] < w0]
+            if narrowed:
+                h, hp = narrowed[0]
+                r.violation(site, "%s: '%s' (%s) is passed through %s's parameter '%s' of the narrower type %s before it reaches %s" % (
+                    cname, pname, f.db_types[p0["t"]], h.name.split("::")[-1], hp["n"], h.db_types[hp["t"]], callee), f, hops[0][2])
+                continue
+            f, did, pname = hops[0][0], hops[0][1]["did"], hops[0][1]["n"]
+            calls = f.calls(callee)
         t = taint_closure(f, {did})
         tnames = {pname} | set(n.get("n") for n in f.nodes if n.get("k") in ("decl", "ref") and n.get("did") in t and n.get("n"))
         bf = cfg.BranchFacts(f, kill="assign")
@@ -160,6 +189,20 @@ def run(ctx):
                 why = "argument #%d of %s is '%s', which does not derive from '%s'" % (idx, callee, expr_str(args[idx])[:60], pname)
                 good, bad = False, c
                 break
+            # ... and arrives whole: no narrower integer local or explicit cast between the parameter and the argument
+            pw = [p_ for p_ in f.params if p_["did"] == did]
+            w0 = INT_WIDTH.get(f.db_types[pw[0]["ct"]]) if pw else None
+            if w0 is not None:
+                narrow = None
+                for x in args[idx].walk():
+                    if x.get("k") == "ref" and x.get("did") in t and x.get("did") != did and INT_WIDTH.get(x.ctype(), w0) < w0:
+                        narrow = "local '%s' of type %s" % (x.get("n"), x.ctype())
+                    if x.get("k") == "cast" and x.get("explicit") and INT_WIDTH.get(x.ctype(), w0) < w0 and mentions(x, t):
+                        narrow = "a cast to %s" % x.ctype()
+                if narrow:
+                    why = "'%s' reaches argument #%d of %s through %s, which is narrower than the parameter" % (pname, idx, callee, narrow)
+                    good, bad = False, c
+                    break
         if good:
             r.ok(site, "", f, calls[0])
         else:
@@ -256,9 +299,31 @@ def run(ctx):
                                 "array handed to a C callback with a count other than its size(): %s" % expr_str(n)[:100], f, n)
             if k == "call" and (n.get("fn") or "").split("::")[-1] in ("strlen",):
                 r.violation("%s|strlen" % f.name, "strlen on boundary data: %s" % expr_str(n)[:80], f, n)
-    n_sfd = sum(1 for o in r.instances if "string-from-data" in str(o.get("site") if isinstance(o, dict) else getattr(o, "site", "")))
-    if n_sfd < 5:
-        raise AnalysisBroken("R-NUL-SAFE: only %d strings built from llb_data_t::data found (5 confirmed by reading)" % n_sfd)
+    # every entry point that is handed a byte string (`const llb_data_t *`) turns it into a C++ string at one of the sites just checked — in its
+    # own body or in a helper of this unit it calls (the sites are counted per entry point, not in total: sharing a helper is a refactoring)
+    from sa.callgraph import CallGraph
+    cg = CallGraph(prog)
+    ckeys = set(g.key for g in cfuncs)
+    sfd_fns = set()
+    for g in cfuncs:
+        for n in g.nodes:
+            if n.get("k") == "construct" and arg_nodes(n) and arg_nodes(n)[0] is not None:
+                d0 = strip_casts(arg_nodes(n)[0])
+                if d0 is not None and d0.get("k") == "member" and re.search(r"llb_data_t_?::data$", d0.get("qn", "")):
+                    sfd_fns.add(g.key)
+    n_entry = 0
+    for g in cfuncs:
+        if g.is_lambda or not any(f_t.replace(" ", "") == "constllb_data_t*" for f_t in (g.db_types[p_["t"]] for p_ in g.params)):
+            continue
+        if g.name.split("::")[-1].startswith("llb_") is False:
+            continue
+        n_entry += 1
+        reach = set(k_ for k_ in cg.reachable_from(g.key) if k_ in ckeys)
+        copies = [c for c in g.calls("memcpy")]
+        r.check(bool(reach & sfd_fns) or bool(copies), "%s|bytes-taken-with-length" % g.name, "",
+                "%s is handed a byte string but never builds a string from its (data, length) pair" % g.name, g)
+    if n_entry < 6:
+        raise AnalysisBroken("R-NUL-SAFE: only %d entry points with a `const llb_data_t *` parameter found (6 confirmed by reading)" % n_entry)
     if n_pairs[0] < 1:
         raise AnalysisBroken("R-NUL-SAFE: no (pointer,count) callback argument pair found (cycle_detected expected)")
     # keys/values handed to the engine must not go through c_str()
@@ -395,4 +460,10 @@ VARIANTS = [
     dict(name="benign-result-local-renamed", file=CC,
          old="  std::vector<uint8_t> result(value->length);\n  memcpy(result.data(), value->data, value->length);\n  coreti->complete(std::move(result), force_change);",
          new="  std::vector<uint8_t> bytes(value->length);\n  memcpy(bytes.data(), value->data, value->length);\n  coreti->complete(std::move(bytes), force_change);", expect=None),
+    dict(name="input-id-through-narrow-helper", file=CC, old="  coreti->request(KeyType((const char*)key->data, key->length), input_id);\n}",
+         new="  auto ask = [&](unsigned id) { coreti->request(KeyType((const char*)key->data, key->length), id); };\n  ask(input_id);\n}", expect=("R-FORWARD-ROLE", "input_id")),
+    dict(name="input-id-through-narrow-local", file=CC, old="  coreti->request(KeyType((const char*)key->data, key->length), input_id);",
+         new="  unsigned id = input_id;\n  coreti->request(KeyType((const char*)key->data, key->length), id);", expect=("R-FORWARD-ROLE", "input_id")),
+    dict(name="benign-input-id-through-wide-local", file=CC, old="  coreti->request(KeyType((const char*)key->data, key->length), input_id);",
+         new="  uintptr_t id = input_id;\n  coreti->request(KeyType((const char*)key->data, key->length), id);", expect=None),
 ]
